@@ -14,18 +14,22 @@
    make_right_triangle / make_right_diagonal return ONLY new cells; fill_forward_gaps / backfill return
    the union (observed cells kept, proved as `forall c, In c t -> In c out`).
 
-   Partial clause (named below): C15_backfill_partial + C15_backfill_first_cell prove that the cell
-   being extended backwards is the first cell of its period in t.cells; that this is the EARLIEST
-   observation of its slice and period is proved under [rows_sorted t], the part of the triangle's
-   sortedness invariant (C01) that is needed -- it is a hypothesis here, not a theorem about the
-   constructor.  backfill only extends the first slice of each period (it walks period_rows, not
-   slice_period_rows); the property text makes no completeness claim for backfill.
+   Backfill: C15_backfill + C15_backfill_first_cell prove that the cell being extended backwards is
+   the first cell of its period in t.cells; C15_backfill_earliest makes "the EARLIEST observation of
+   its slice and period" unconditional for canonical input (the constructor's output, C01:
+   sorted by Cell.__lt__, cells comparable), via TriangleP.sorted_pairs.  backfill only extends the
+   first slice of each period (it walks period_rows, not slice_period_rows); the property text makes
+   no completeness claim for backfill.
+   C15_results_constructible: the new cells of make_right_triangle / make_right_diagonal are accepted
+   by the constructor (one class, pairwise comparable) and come back as a canonical triangle holding
+   exactly these cells.
    C15_fill_forward_gaps states "inside a gap" under the hypothesis that the resolution divides the
    row's lag span; without it the code adds a cell beyond the last observation (see the check's
    candidate-finding note), and the theorem gives the weaker bound lag < last + res. *)
 From Coq Require Import ZArith List Bool Lia.
 From Bermuda Require Import Lib.Calendar Model.Base Model.Accessors Model.Extend
   Proofs.Accessors Proofs.AccessorsTax Proofs.CalendarP Proofs.AccessorsCal Proofs.Extend.
+From Bermuda Require Model.Order Proofs.OrderP Proofs.TriangleP Proofs.AccessorsOrder.
 Import ListNotations.
 Open Scope Z_scope.
 
@@ -161,10 +165,10 @@ Proof. intros t. split; [apply all_rows_cover|apply all_rows_sub]. Qed.
 Print Assumptions C15_rows_cover.
 
 (* ---------------------------------------------------------------- backfill *)
-(* PARTIAL: see header.  Observed cells are kept; every other cell copies an observed cell c (kind,
+(* Observed cells are kept; every other cell copies an observed cell c (kind,
    period, prev, metadata) at lag mlag c - k*res >= max(min_dev_lag, -period_resolution + 1), not
    before the period start; its values are zeros plus the statics of c. *)
-Theorem C15_backfill_partial : forall statics res min_lag t out,
+Theorem C15_backfill : forall statics res min_lag t out,
   0 < res -> backfill statics (Some res) min_lag t = Ok out ->
   exists pres, period_resolution t = Ok (Some pres) /\
   (forall c, In c t -> In c out) /\
@@ -174,7 +178,7 @@ Theorem C15_backfill_partial : forall statics res min_lag t out,
        x = mkCell (ckind c) (ps c) (pe c) (addm (pe c) (mlag c - k * res)) (prev c) (cmeta c) vals /\
        ps c <= ev x /\ match prev c with Some p => p < ev x | None => True end).
 Proof. exact backfill_spec. Qed.
-Print Assumptions C15_backfill_partial.
+Print Assumptions C15_backfill.
 
 (* the extended cell is the first cell of its period in t.cells; under the sortedness invariant it is
    the earliest observation of its slice and period *)
@@ -192,6 +196,47 @@ Theorem C15_first_cell_is_earliest : forall t pre c post,
   forall d, In d t -> period d = period c -> meta_pyeq (cmeta c) (cmeta d) = true -> ev c <= ev d.
 Proof. exact first_of_period_earliest. Qed.
 Print Assumptions C15_first_cell_is_earliest.
+
+(* canonical input (C01): the extended cell is the earliest observation of its slice and period *)
+Theorem C15_backfill_earliest : forall statics res min_lag l t out,
+  TriangleP.cells_comparable l -> Order.mk_triangle l = Ok t ->
+  (forall c, In c t -> wf_meta (cmeta c)) ->
+  0 < res -> backfill statics (Some res) min_lag t = Ok out ->
+  forall x, In x out -> In x t \/
+    exists c vals pres, In c t /\
+      (forall d, In d t -> period d = period c -> meta_pyeq (cmeta c) (cmeta d) = true -> ev c <= ev d) /\
+      period_resolution t = Ok (Some pres) /\ backfill_values statics c = Ok vals /\
+      In x (backfill_cells res (Z.max min_lag (- pres + 1)) vals c).
+Proof.
+  intros statics res min_lag l t out Hc H Hwf. apply AccessorsOrder.backfill_earliest; [|assumption].
+  eapply AccessorsOrder.mk_triangle_is_canonical; eassumption.
+Qed.
+Print Assumptions C15_backfill_earliest.
+
+(* every canonical triangle has rows in ascending evaluation date *)
+Theorem C15_canonical_rows_sorted : forall l t,
+  TriangleP.cells_comparable l -> Order.mk_triangle l = Ok t ->
+  (forall c, In c t -> wf_meta (cmeta c)) -> rows_sorted t.
+Proof.
+  intros l t Hc H Hwf. apply AccessorsOrder.canonical_rows_sorted; [|assumption].
+  eapply AccessorsOrder.mk_triangle_is_canonical; eassumption.
+Qed.
+Print Assumptions C15_canonical_rows_sorted.
+
+(* the new cells are a legal constructor argument and come back as a canonical triangle *)
+Theorem C15_results_constructible : forall u lags dates t,
+  TriangleP.cells_comparable t ->
+  (exists t', Order.mk_triangle (flat_map (rt_slice false u lags) (slices t)) = Ok t' /\
+              Permutation.Permutation (flat_map (rt_slice false u lags) (slices t)) t' /\
+              AccessorsOrder.canonical t') /\
+  (exists t', Order.mk_triangle (flat_map (rd_slice false dates false) (slices t)) = Ok t' /\
+              Permutation.Permutation (flat_map (rd_slice false dates false) (slices t)) t' /\
+              AccessorsOrder.canonical t').
+Proof.
+  intros u lags dates t Hc. split;
+    [apply AccessorsOrder.right_triangle_constructible|apply AccessorsOrder.right_diagonal_constructible]; assumption.
+Qed.
+Print Assumptions C15_results_constructible.
 
 Theorem C15_backfill_values : forall statics c vals,
   backfill_values statics c = Ok vals ->
